@@ -19,7 +19,8 @@ func init() {
 			"(S) shutdown: the signal channel registers exactly SIGINT and SIGTERM and is closed by the goroutine that received one; after the signal, with a positive grace period main cancels the polling context, then sleeps for the period, then terminates; otherwise it returns without blocking; the cancel function belongs to the context handed to the poller; " +
 			"(P) polling stops: the list call is only reachable through the default arm of a non-blocking select on pollingCtx.Done() whose other arm returns; " +
 			"(W) workers are independent of the polling context: the polling context is used only for Done()/Err() inside pollForNewRequests (never stored, captured or passed on) and the shared *http.Client is not modified there. " +
-			"(P, second part) ListPendingRequests performs exactly one proxy round trip per call, outside any loop, so the cancellation test runs between any two polls.",
+			"(P, second part) ListPendingRequests performs exactly one proxy round trip per call, outside any loop, so the cancellation test runs between any two polls. " +
+			"runAdapter hands the polling context to pollForNewRequests and to nothing else.",
 		Assumptions: []string{"os/signal delivers the registered signals; context cancellation is observed by Done()", "log.Fatal terminates the process"},
 		Run:         runC20,
 	})
@@ -274,7 +275,7 @@ func runC20(c *Ctx) {
 			c.Check("C20.S", "signals:exactly-INT-and-TERM", p, sn.Pos(), len(sigs) == 2 && sigs[2] && sigs[15], "signal.Notify(…, SIGINT, SIGTERM)", fmt.Sprintf("the shutdown channel registers signals %v, not exactly SIGINT(2) and SIGTERM(15)", sigs))
 			// goroutine: recv from sigs then close(ch); returned value is ch
 			okG := false
-			for _, cl := range f.AnonFuncs {
+			for _, cl := range DirectClosures(f) {
 				var rcv, cls ssa.Instruction
 				for _, op := range ChanOpsOf(cl) {
 					if op.Kind == "recv" && SameValue(op.Chan, CallOf(sn).Args[0]) {
@@ -456,6 +457,9 @@ func runC20(c *Ctx) {
 			}
 		}
 		c.Check("C20.W", "polling-context:confined", p, f.Pos(), bad == "", "the polling context is only asked Done()/Err() inside pollForNewRequests: nothing a worker uses depends on it", "the polling context is "+bad+": cancelling polling on shutdown also cancels what that value was given to (e.g. the HTTP client the workers use to fetch requests and upload responses), so requests already forwarded are not answered")
+		if ra := p.Func("agent.runAdapter"); ra != nil {
+			ruleParamOnlyPassedTo(c, p, "C20.W", "runAdapter:polling-context-only-for-the-poller", ra, 1, ag+".pollForNewRequests", 0, "runAdapter hands the polling context to pollForNewRequests and to nothing else", "the polling context leaks out of the poller in runAdapter: whatever receives it (a transport wrapper, the shared HTTP client, the handler chain) is cancelled together with polling, so uploads of requests already forwarded are aborted at shutdown")
+		}
 		// the shared client is not modified
 		mod := ""
 		EachInstr(f, func(i ssa.Instruction) {
